@@ -169,7 +169,7 @@ class EvalMixin:
         if isinstance(e.op, ast.Not):
             return self.ev(e.operand, st, lambda s1, v: k(s1, sv_bool(z3.Not(self.truthy(s1, v)))))
         if isinstance(e.op, ast.USub):
-            return self.ev(e.operand, st, lambda s1, v: self.need_num(s1, v, e, lambda s2: k(s2, sv_int(-smt.num(v.t)))))
+            return self.ev(e.operand, st, lambda s1, v: self.need_num(s1, v, e, lambda s2: k(s2, sv_int(-smt.N(v)))))
         raise Unsupported("unary op")
 
     def need_num(self, st, v, node, k):
@@ -201,10 +201,10 @@ class EvalMixin:
             if isinstance(op, ast.Mult) and (a.ty == "str" or b.ty == "str"):
                 f = self.get_uf("str_repeat", [smt.StrS, IntS], smt.StrS)
                 s, n = (a, b) if a.ty == "str" else (b, a)
-                return k(st1, SV(smt.mk_str(f(Val.s(s.t), smt.num(n.t))), "str"))
+                return k(st1, SV(smt.mk_str(f(Val.s(s.t), smt.N(n))), "str"))
             if a.ty in ("int", "bool") and b.ty in ("int", "bool"):
                 if isinstance(op, (ast.FloorDiv, ast.Mod)):
-                    return self.branch(st1, smt.num(b.t) != 0, lambda s2: k(s2, self.arith(op, a, b)), lambda s3: self.raise_builtin(s3, "ZeroDivisionError", e))
+                    return self.branch(st1, smt.N(b) != 0, lambda s2: k(s2, self.arith(op, a, b)), lambda s3: self.raise_builtin(s3, "ZeroDivisionError", e))
                 if isinstance(op, ast.Div):
                     raise Unsupported("true division")
                 return k(st1, self.arith(op, a, b))
@@ -234,7 +234,7 @@ class EvalMixin:
         j = z3.Int(f"j!cat{self._qid()}")
         st.assume(z3.ForAll([j], z3.Implies(z3.And(j >= 0, j < na), arr[j] == ia[j]), patterns=[arr[j]]))
         st.assume(z3.ForAll([j], z3.Implies(z3.And(j >= 0, j < nb), arr[na + j] == ib[j]), patterns=[ib[j]]))
-        self.set_list(st, ref, arr, na + nb)
+        self.set_list(st, ref, arr, na + nb, fresh=True)
         return SV(ref, "list", a.meta if a.meta and a.meta[0] == "elemtype" else None)
 
     def e_Compare(self, e, st, k):
@@ -384,7 +384,7 @@ class EvalMixin:
 
     def subscript_load(self, st, base, idx, node, k):
         if base.meta and base.meta[0] == "tuple":
-            iv = z3.simplify(smt.num(idx.t))
+            iv = z3.simplify(smt.N(idx))
             if z3.is_int_value(iv):
                 i = iv.as_long()
                 items = base.meta[1]
@@ -400,13 +400,13 @@ class EvalMixin:
         if base.ty == "str":
             s = Val.s(base.t)
             n = z3.Length(s)
-            i0 = smt.num(idx.t)
+            i0 = smt.N(idx)
             i = z3.If(i0 < 0, i0 + n, i0)
             ok = z3.And(i >= 0, i < n)
             return self.branch(st, ok, lambda s1: k(s1, SV(smt.mk_str(z3.SubString(s, i, 1)), "str")), lambda s2: self.raise_builtin(s2, "IndexError", node))
         if base.ty in ("list", "tuple"):
             n = self.list_len(st, base.t)
-            i0 = smt.num(idx.t)
+            i0 = smt.N(idx)
             i = z3.If(i0 < 0, i0 + n, i0)
             ok = z3.And(i >= 0, i < n)
             et = base.meta[1] if base.meta and base.meta[0] == "elemtype" else None
@@ -452,7 +452,7 @@ class EvalMixin:
                 return [Outcome("next", st1)]
             if base.ty == "list":
                 n = self.list_len(st1, base.t)
-                i0 = smt.num(idx.t)
+                i0 = smt.N(idx)
                 i = z3.If(i0 < 0, i0 + n, i0)
                 ok = z3.And(i >= 0, i < n)
 
@@ -534,7 +534,7 @@ class EvalMixin:
             return ("heap", seq, start, ef)
         if kind == "range":
             vs = it[1]
-            consts = [z3.simplify(smt.num(v.t)) for v in vs]
+            consts = [z3.simplify(smt.N(v)) for v in vs]
             if all(z3.is_int_value(c) for c in consts):
                 r = range(*[c.as_long() for c in consts])
                 if len(r) <= 16:
@@ -553,7 +553,7 @@ class EvalMixin:
         keys = smt.fresh("keyseq", z3.ArraySort(IntS, Val))
         n = z3.Select(st.H("$len"), Val.r(d.t))
         st.assume(n >= 0)
-        self.set_list(st, ref, keys, n)
+        self.set_list(st, ref, keys, n, fresh=True)
         has0 = z3.Select(st.H("$dhas"), Val.r(d.t))
         val0 = z3.Select(st.H("$dval"), Val.r(d.t))
         j, j2 = z3.Int(f"j!ks{self._qid()}"), z3.Int(f"j2!ks{self._qid()}")
